@@ -3,7 +3,7 @@ What torch frees when retain_graph=False is trusted, not decided."""
 
 from __future__ import annotations
 
-from . import _layout, _pipe
+from . import _inst, _layout, _pipe
 from .C01 import atoms_of_desc
 
 
@@ -45,7 +45,14 @@ def check(index, ctx):
                         ctx.violated("R1", k, f"retain_graph={e['retain_graph']} (origin {org}) depends on the position in a loop although this graph is differentiated once: "
                                      "with retain_graph=False some of these graphs are retained (silent memory leak)", e["loc"])
                     elif "retain_graph" in org:
-                        ctx.undecided("R1", k, f"retain_graph is an expression derived from the caller's flag (origin {org}); its value at this sweep cannot be decided statically", e["loc"])
+                        # e.g. `flag if <last block> else True`: ask the runs with concrete sizes which value each sweep receives
+                        st_, text_, der_ = _inst.verdict(index, run.entry, "retain", chunk=bool(run.variant.get("chunk")))
+                        if st_ == "ok":
+                            ctx.ok("R1", k, text_, e["loc"], derivation=der_)
+                        elif st_ == "violated":
+                            ctx.violated("R2", f"{run.entry}: the last sweep (and only the last) carries the caller's retain_graph", text_, e["loc"], derivation=der_)
+                        else:
+                            ctx.undecided("R1", k, f"retain_graph is an expression derived from the caller's flag (origin {org}); its value at this sweep cannot be decided statically; " + text_, e["loc"])
                     else:
                         ctx.violated("R1", k, f"retain_graph={e['retain_graph']} (origin {org}) does not derive from the entry point's retain_graph parameter", e["loc"])
                     cg = e.get("create_graph_origin") or []
@@ -71,6 +78,6 @@ def check(index, ctx):
                 ctx.require(not early, "R2", kk + " earlier sweeps" if not early else f"{run.entry}: non-final sweeps over {list(outs)} retain the graph",
                             f"{len(es) - 1} earlier sweep events use the literal True",
                             f"a non-final sweep runs with retain_graph={early[0]['retain_graph'] if early else ''}: with retain_graph=False the graph is freed before the remaining sweeps", early[0]["loc"] if early else last["loc"])
-    ctx.floor("autograd.grad events inspected", n_sites, 20)
+    ctx.floor("autograd.grad events inspected", n_sites, 8)
     _pipe.common_evidence(ctx, index)
     ctx.assumptions.append("what torch frees for retain_graph=False, and that an identical second call adds an identical update (C06 + C11), are not re-decided here")
